@@ -10,6 +10,11 @@ package main
 // installed through conn.Config().Recover AFTER the built-in handlers and half of the user handlers
 // were registered: the function configured when the panic happens must get it.  seed%3 == 0: a small
 // cfg.Timeout (the dial timeout, unrelated to handlers) together with handlers slower than it.)
+// track 0 off | 1 EnableStateTracking() before Connect() | 2 after Connect(), before the traffic.
+// endmode 0 up | 1 server EOF | 2 user Close() | 3 "reconnect while closing": the last line of
+// connection 1 (line close_at-1) has a slow foreground handler; while it runs goroutine A calls
+// Close() and goroutine B calls Connect() (same Conn, fresh server end); lines close_at.. arrive on
+// connection 2.
 // input  = [procs; track; recmode; endmode; close_at; c_fg; c_bg; d_fg; d_bg; seed; panic%; park%;
 //           V; (n_fg n_bg) x V; L; code x L; arg x L]
 //          code = verb index (0 = the 001 line) | 900 our JOIN of #c | short lines that make a built-in
@@ -55,13 +60,18 @@ type dspCase struct {
 	panicPct, parkPct                       int
 	vfg, vbg                                []int
 	codes                                   []int
-	args                                    []int // per line: target member (tracking sessions)
+	late                                    bool     // tracking switched on after Connect()
+	texts                                   []string // wire text per line
+	args                                    []int    // per line: target member (tracking sessions)
 }
 
 func dspDecode(in Fields) *dspCase {
 	c := &dspCase{procs: in.I(0), track: in.I(1), recmode: in.I(2), endmode: in.I(3), closeAt: in.I(4),
 		cfg: in.I(5), cbg: in.I(6), dfg: in.I(7), dbg: in.I(8), seed: uint64(in.I(9)),
 		panicPct: in.I(10), parkPct: in.I(11)}
+	if c.track == 2 {
+		c.track, c.late = 1, true
+	}
 	v := in.I(12)
 	p := 13
 	for j := 0; j < v; j++ {
@@ -83,7 +93,11 @@ func dspDecode(in Fields) *dspCase {
 }
 
 func (c *dspCase) encode() Fields {
-	f := F(c.procs, c.track, c.recmode, c.endmode, c.closeAt, c.cfg, c.cbg, c.dfg, c.dbg, int(c.seed),
+	tr := c.track
+	if c.late {
+		tr = 2
+	}
+	f := F(c.procs, tr, c.recmode, c.endmode, c.closeAt, c.cfg, c.cbg, c.dfg, c.dbg, int(c.seed),
 		c.panicPct, c.parkPct, len(c.vfg))
 	for j := range c.vfg {
 		f = append(f, F(c.vfg[j], c.vbg[j])...)
@@ -134,10 +148,16 @@ func (c *dspCase) lineText(k int) string {
 	long := code >= 1000
 	code %= 1000
 	pad := ""
-	if long {
-		pad = " " + strings.Repeat("x", 4200+int(dspHash(c.seed, 77, k, 0)%3000))
-	}
 	tag := fmt.Sprintf("@s=%d ", k)
+	if long {
+		// longer than bufio's 4096-byte buffer: 4097..12000 bytes, in the trailing or in a tag
+		fill := strings.Repeat("x", 4097+int(dspHash(c.seed, 77, k, 0)%7800)) + fmt.Sprintf("E%d", k)
+		if dspHash(c.seed, 78, k, 0)%3 == 0 {
+			tag = fmt.Sprintf("@s=%d;p=%s ", k, fill)
+		} else {
+			pad = " " + fill
+		}
+	}
 	src := fmt.Sprintf("%s:%d!u@h ", tag, k)
 	tgt := fmt.Sprintf("u%d", c.arg(k))
 	switch code {
@@ -230,18 +250,20 @@ type dspPanicVal struct{ Kind, K, I int }
 func (v dspPanicVal) String() string { return fmt.Sprintf("dsp:%d:%d:%d", v.Kind, v.K, v.I) }
 
 type dspRun struct {
-	c       *dspCase
-	conn    *client.Conn
-	mu      sync.Mutex
-	log     []dspEvent
-	seq     int64 // atomic: number of events (cross-check of the log length)
-	pend    map[*client.Line][3]int
-	pendQ   [][3]int // fg nil-map panics waiting for their LogPanic record (recmode 0)
-	park    chan struct{}
-	bgLive  int64
-	endSeen chan struct{}
-	endOnce sync.Once
-	discN   int64
+	c           *dspCase
+	conn        *client.Conn
+	mu          sync.Mutex
+	log         []dspEvent
+	seq         int64 // atomic: number of events (cross-check of the log length)
+	pend        map[*client.Line][3]int
+	pendQ       [][3]int // fg nil-map panics waiting for their LogPanic record (recmode 0)
+	park        chan struct{}
+	bgLive      int64
+	endSeen     chan struct{}
+	endOnce     sync.Once
+	discN       int64
+	slowEntered chan struct{}
+	slowOnce    sync.Once
 	// evidence tables for the tracker sample (tracking sessions), from the script
 	opLine  map[string]int // name -> serial of the MODE +o line on it
 	sslLine map[string]int // name -> serial of its 671 line
@@ -413,6 +435,9 @@ func (r *dspRun) handler(kind, i int) client.HandlerFunc {
 		switch kind {
 		case dspKFg, dspKBg:
 			k = dspSerial(line)
+			if k >= 0 && k < len(r.c.texts) && line.Raw != r.c.texts[k] {
+				k = 65003 // the line did not arrive whole (cut or glued)
+			}
 			if k < 0 {
 				return // not a scripted line (our own JOIN echo has handlers of its verb but is line 1: no tag-less lines exist; the end marker is handled elsewhere)
 			}
@@ -431,7 +456,13 @@ func (r *dspRun) handler(kind, i int) client.HandlerFunc {
 			atomic.AddInt64(&r.bgLive, 1)
 			return
 		}
-		r.sleep(kind, k, i)
+		if r.c.endmode == 3 && kind == dspKFg && k == r.c.closeAt-1 {
+			// the slow foreground handler during which Close() and Connect() are issued
+			r.slowOnce.Do(func() { close(r.slowEntered) })
+			time.Sleep(80 * time.Millisecond)
+		} else {
+			r.sleep(kind, k, i)
+		}
 		if int(dspHash(r.c.seed, 5000+kind, k, i)%100) < r.c.panicPct {
 			what := int(dspHash(r.c.seed, 6000+kind, k, i) % 4)
 			if r.c.recmode == 0 && what == 2 && kind != dspKFg {
@@ -542,7 +573,10 @@ func dspExec(in Fields) Fields {
 	cfg.Proxy = ms.URL()
 	cfg.Flood = true
 	cfg.PingFreq = 0
-	r := &dspRun{c: c, pend: map[*client.Line][3]int{}, park: make(chan struct{}), endSeen: make(chan struct{})}
+	r := &dspRun{c: c, pend: map[*client.Line][3]int{}, park: make(chan struct{}), endSeen: make(chan struct{}), slowEntered: make(chan struct{})}
+	for k := range c.codes {
+		c.texts = append(c.texts, c.lineText(k))
+	}
 	r.buildEvidence()
 	stopWatch := dspWatchdog(r)
 	defer stopWatch()
@@ -554,7 +588,7 @@ func dspExec(in Fields) Fields {
 	}
 	conn := client.Client(cfg)
 	r.conn = conn
-	if c.track == 1 {
+	if c.track == 1 && !c.late {
 		conn.EnableStateTracking()
 	}
 	dspCur.Store(r)
@@ -619,19 +653,27 @@ func dspExec(in Fields) Fields {
 	if err := <-errc; err != nil {
 		return F("end:connecterr")
 	}
+	if c.track == 1 && c.late {
+		conn.EnableStateTracking() // on the live connection, before any traffic
+	}
 
 	// the script, cut into writes at random points
 	var sb strings.Builder
 	offs := make([]int, len(c.codes)+1)
 	for k := range c.codes {
-		sb.WriteString(c.lineText(k))
+		sb.WriteString(c.texts[k])
 		sb.WriteString("\r\n")
 		offs[k+1] = sb.Len()
 	}
-	if c.endmode == 0 {
+	if c.endmode == 0 || c.endmode == 3 {
 		sb.WriteString(":x!u@h DSPEND x\r\n")
 	}
 	stream := []byte(sb.String())
+	var stream2 []byte // endmode 3: what connection 2 carries
+	if c.endmode == 3 {
+		cut := offs[c.closeAt]
+		stream, stream2 = stream[:cut], stream[cut:]
+	}
 	stopAt := len(stream)
 	if c.endmode == 2 && c.closeAt < len(offs) {
 		stopAt = offs[c.closeAt]
@@ -640,8 +682,74 @@ func dspExec(in Fields) Fields {
 	closed := make(chan struct{})
 	closeCalled := make(chan struct{})
 	writerDone := make(chan struct{})
+	chunk := func() int {
+		switch x := wr.Intn(100); {
+		case x < 15:
+			return 1
+		case x < 60:
+			return 1 + wr.Intn(40)
+		case x < 90:
+			return 1 + wr.Intn(400)
+		}
+		return 1 + wr.Intn(9000)
+	}
+	play := func(to net.Conn, data []byte) {
+		for p := 0; p < len(data); {
+			n := chunk()
+			if p+n > len(data) {
+				n = len(data) - p
+			}
+			to.SetWriteDeadline(time.Now().Add(10 * time.Second))
+			if _, err := to.Write(data[p : p+n]); err != nil {
+				return
+			}
+			p += n
+			atomic.AddInt64(&dspProgress, 1)
+		}
+	}
+	drain := func(from net.Conn) {
+		b := make([]byte, 4096)
+		for {
+			n, err := from.Read(b)
+			atomic.AddInt64(&dspProgress, int64(n)+1)
+			if err != nil {
+				return
+			}
+		}
+	}
+	var srv2 net.Conn
+	reconnected := make(chan struct{})
+	if c.endmode == 3 {
+		go func() { // goroutine A
+			<-r.slowEntered
+			close(closeCalled)
+			conn.Close()
+			close(closed)
+		}()
+		go func() { // goroutine B
+			<-r.slowEntered
+			time.Sleep(3 * time.Millisecond)
+			cerr := make(chan error, 1)
+			go func() { cerr <- conn.Connect() }()
+			select {
+			case srv2 = <-ms.Conns:
+			case <-time.After(30 * time.Second):
+				return
+			}
+			go drain(srv2)
+			if err := <-cerr; err != nil {
+				return
+			}
+			close(reconnected)
+			play(srv2, stream2)
+		}()
+	}
 	go func() {
 		defer close(writerDone)
+		if c.endmode == 3 {
+			play(srv, stream)
+			return
+		}
 		p := 0
 		fired := false
 		for p < len(stream) {
@@ -708,9 +816,19 @@ func dspExec(in Fields) Fields {
 	case 1:
 		wait(writerDone, "writer", whole)
 		wait(discSeen, "disc", teardown)
-	default:
+	case 2:
 		wait(closeCalled, "closecall", whole)
 		wait(closed, "close", teardown)
+	default:
+		wait(closeCalled, "closecall", whole)
+		wait(reconnected, "reconnect", 20*time.Second)
+		wait(r.endSeen, "end", 20*time.Second)
+		// whether Close() #1 ever returns is C07's subject, not C03's: give it a moment so that
+		// DISCONNECTED #1 normally is in the log, then judge the log as it is
+		select {
+		case <-closed:
+		case <-time.After(3 * time.Second):
+		}
 	}
 	if c.endmode != 0 {
 		// every foreground DISCONNECTED handler finished (closeIf returns after the dispatch)
@@ -728,6 +846,9 @@ func dspExec(in Fields) Fields {
 	// teardown
 	close(r.park)
 	srv.Close()
+	if srv2 != nil {
+		srv2.Close()
+	}
 	tdone := make(chan struct{})
 	go func() { conn.Close(); close(tdone) }()
 	select {
@@ -1013,6 +1134,39 @@ func dspGenTrackLines(r *Rand, c *dspCase, nl int, o dspGenOpt, small bool, shor
 		}
 		c.codes = append(c.codes, code)
 		c.args = append(c.args, arg)
+	}
+}
+
+// make one line in the second half of a non-tracking session a long one
+func dspForceLong(c *dspCase) {
+	if c.track == 1 {
+		return
+	}
+	for k := len(c.codes) / 2; k < len(c.codes); k++ {
+		code := c.codes[k]
+		if code >= 900 {
+			continue
+		}
+		if vn := dspVerbName(0, code); vn != "CTCP" && vn != "NICK" {
+			c.codes[k] = code + 1000
+			return
+		}
+	}
+}
+
+// turn a non-tracking session into the kind "reconnect while closing": line closeAt-1 is a PING
+// (verb 1, which always has foreground handlers) whose foreground handlers are slow; lines from
+// closeAt on arrive on connection 2
+func dspMakeReconnect(r *Rand, c *dspCase) {
+	n := len(c.codes)
+	if c.track == 1 || n < 12 {
+		return
+	}
+	c.endmode = 3
+	c.closeAt = r.Range(4, n-4)
+	c.codes[c.closeAt-1] = 1
+	if c.vfg[1] == 0 {
+		c.vfg[1] = 2
 	}
 }
 
